@@ -208,6 +208,7 @@ func strScanFrom(b []byte, k int, validate bool, nonVerb, nonCanon bool) strScan
 //@ ensures eof-iff: resumeOffset > 0 || (len(b) > 0 && b[0] == '"') ==> isUnexpectedEOF(err) == (strScanFrom(b, max(resumeOffset, 1), validateUTF8, old(*flags)%2 == 1, old(*flags)/2%2 == 1).kind == uEOF)
 //@ ensures utf8-iff: resumeOffset > 0 || (len(b) > 0 && b[0] == '"') ==> (err == ErrInvalidUTF8) == (strScanFrom(b, max(resumeOffset, 1), validateUTF8, old(*flags)%2 == 1, old(*flags)/2%2 == 1).kind == uBadUTF8)
 //@ ensures err-n: (resumeOffset > 0 || (len(b) > 0 && b[0] == '"')) && err != nil ==> n == strScanFrom(b, max(resumeOffset, 1), validateUTF8, old(*flags)%2 == 1, old(*flags)/2%2 == 1).pos
+//@ ensures range: 0 <= n && n <= len(b) && (n >= resumeOffset || n == 0)
 //@ ensures flags-mono: (old(*flags)%2 == 1 ==> *flags%2 == 1) && (old(*flags)/2%2 == 1 ==> *flags/2%2 == 1) && *flags/4 == old(*flags)/4
 //@ ensures verbatim-exact: (resumeOffset > 0 || (len(b) > 0 && b[0] == '"')) && err == nil ==> (*flags%2 == 1) == strScanFrom(b, max(resumeOffset, 1), validateUTF8, old(*flags)%2 == 1, old(*flags)/2%2 == 1).nonVerb
 //@ ensures canonical-exact: (resumeOffset > 0 || (len(b) > 0 && b[0] == '"')) && err == nil ==> (*flags/2%2 == 1) == strScanFrom(b, max(resumeOffset, 1), validateUTF8, old(*flags)%2 == 1, old(*flags)/2%2 == 1).nonCanon
